@@ -490,6 +490,24 @@ example : ¬ Normal T1210 ⟨⟨(2 : Int) ^ 10 + 1, false⟩, 0⟩ := by
 
 example : recipClamp 10 ((2 : Int) ^ 10 + 1) = 1024 ∧ recipClamp 10 (-511) = -512 ∧ recipClamp 10 700 = 700 := by decide
 
+/-! ### alignment shift of the addition for types with a long significand and a short exponent (repo fix 1c40c3c) -/
+
+/-- the alignment shift is `min(e1 - e2, f)`, `f = s - 1`, with `0 ≤ e1 - e2 < 2^e` for `e`-bit exponents: when
+`f ≥ 2^e - 1` the cap never applies … -/
+theorem align_shift_cap_not_needed (e f d : ℕ) (hd : d < 2 ^ e) (hf : 2 ^ e - 1 ≤ f) : min d f = d := by
+  apply min_eq_left
+  omega
+
+/-- … and it MUST not be computed on the exponent type: the secure comparison `(e1 - e2) < f` tests the sign of
+`(e1 - e2) - f`, which for equal exponents is `-f`, below the range `[-2^e, 2^e)` in which the comparison of `e`-bit
+numbers is specified as soon as `f > 2^e` (the code before the fix: 1.0 + 1.0 = 1.125 for the default `SecFlt(8)`) -/
+theorem align_shift_cap_out_of_range (e f : ℕ) (hf : 2 ^ e < f) : ((0 : Int) - (f : Int)) < -((2 : Int) ^ e) := by
+  have : ((2 : Int) ^ e) < (f : Int) := by exact_mod_cast hf
+  linarith
+
+/-- the default `SecFlt(8)` has s = 6, e = 2: f = 5 > 2^2 -/
+example : min 0 5 = 0 ∧ 2 ^ 2 - 1 ≤ 5 ∧ ((0 : Int) - 5) < -((2 : Int) ^ 2) := by decide
+
 /-! ### selection of secure floats (repo fix 8c9af01: `if_else` / `if_swap` select significand and exponent separately) -/
 
 /-- ★ selecting the two components with the bit `c` returns EXACTLY one of the operands (integer / field arithmetic: no
